@@ -124,7 +124,7 @@ def element(draw, depth, scope, allow_metal_slot=False):
         for i in range(draw(st.integers(1, 2))):
             # (names that merely begin with a scope keyword are ordinary names)
             name = "v%d%d" % (depth, i) if draw(st.booleans()) else draw(st.sampled_from(["s2", "gv1", "globalnav", "locale", "localx", "globals1"]))
-            scope_kw = draw(st.sampled_from(["", "local ", "global "]))
+            scope_kw = draw(st.sampled_from(["", "local ", "global ", "global "] if i == 0 else ["", "", "local ", "global "]))
             ex = draw(expr(dict(sc, defined=defined), allow_default=False))
             clauses.append("%s%s %s" % (scope_kw, name, ex.replace(";", ";;")))
             defined = defined + [name]
@@ -178,8 +178,15 @@ def nodes(draw, depth, scope):
     return out
 
 
+_PROBE_NAMES = ["v00", "v01", "v10", "v11", "v20", "v21", "v30", "v31", "gv1", "globalnav", "locale", "localx", "globals1", "nav"]
+_PROBE = {"t": "el", "tag": "i", "attrs": [["id", "probe"]], "metal": {}, "kids": [{"t": "text", "s": "x"}], "void": False,
+          "tal": {"content": "string:" + "/".join("${%s | nothing}" % n for n in _PROBE_NAMES)}}
+
+
 def template(max_depth=3):
-    return nodes(max_depth, {})
+    """element nodes; half of the templates end with a probe element that prints every name a tal:define elsewhere in the
+    template may have defined - what is visible at the very end is exactly the global defines"""
+    return st.builds(lambda ns, probe: ns + ([dict(_PROBE)] if probe else []), nodes(max_depth, {}), st.booleans())
 
 
 # ------------------------------------------------------------------------------------------------ METAL
